@@ -319,6 +319,15 @@ def run_check(pid, tier="quick", seed=0, n=None, budget_s=None, workers=None, wr
             submit_more()
 
     done = [r for r in results if r is not None]
+    # ---- determinism spot check: the first runs are repeated in this (other) process and must give the same digest
+    spot = {"repeated": 0, "identical": 0}
+    for r in [x for x in results[: min(2, n_random)] if x is not None]:
+        again = _work((pid, r["run_seed"], tier, r["idx"]))
+        spot["repeated"] += 1
+        if again.get("digest") == r["digest"]:
+            spot["identical"] += 1
+        else:
+            harness_errors.append(f"determinism: run seed {r['run_seed']} (index {r['idx']}) gave digest {r['digest']} in a pool worker and {again.get('digest')} in the parent process")
     # ---- aggregate
     agg = {"status": {}, "faults": {}, "probes": {}, "days": 0, "evals": 0}
     nontrivial = set()
@@ -412,6 +421,7 @@ def run_check(pid, tier="quick", seed=0, n=None, budget_s=None, workers=None, wr
         "known_findings_met": [{"what": k["what"], "count": c} for k, c in known_hits],
         "violation_signatures": [s for s, _, _, _ in new_violations],
         "harness_errors": len(harness_errors),
+        "determinism_spot_check": dict(spot, how="first runs of the batch repeated in the parent process; digests over the explicit case and its result must match (full self-test: ./check selftest-determinism)"),
         "workers": workers,
         "exhaustive": False,
     }
